@@ -9,8 +9,8 @@ NeverRespawnedRuns  == \A w \in Workers : ~(inc[w] >= 1 /\ wpc[w] = "run")
 NeverSecondRespawn  == \A w \in Workers : inc[w] < 2
 \*   drop is entered without stop while a task runs and another is still queued
 NeverDropBusyNoStop == ~(cpc = "dropping" /\ recAttached /\ Running # {} /\ q # <<>>)
-\*   stop+drop: the Sender goes away while one worker is still running a task and another sits in recv
-NeverStopDropBusy   == ~(cpc = "done" /\ Gone # {} /\ Running # {} /\ rxLock # NOBODY)
+\*   stop: one worker has consumed the Shutdown while another still runs a task and a third sits in recv
+NeverStopBusy       == ~(cpc = "stopped" /\ Gone # {} /\ Running # {} /\ rxLock # NOBODY)
 \*   the recovery thread finds the handle already taken by Drop
 NeverRespawnAfterDrop == ~(rpc = "respawn" /\ cpc = "done" /\ ~handles[rw])
 =============================================================================
